@@ -53,6 +53,11 @@ CHECKS = {
              "of 1-2 rules over three code items, outputs invalid/all/all_measures/computed/all, modes non_null, always_null, always_zero, a dependent rule chain): over all input tables of 2-3 "
              "datapoints the emitted SQL returns exactly the datapoints / code items whose rule is FALSE (invalid) or every evaluated one with its outcome (all), errorcode/errorlevel exactly where "
              "FALSE, imbalance = left - right, and the computed items of '=' rules."),
+    "C08": dict(technique="bounded SMT (z3, linear integer arithmetic) equivalence between the time macros / SQL regenerated from the real transpiler, evaluated over a calendar theory of DuckDB's date builtins, and the real Gregorian / ISO-8601 calendar; models replayed through run()",
+        engine="sqlsmt", ref="3 C08", note="Trusted: vt/sqlsmt/cal.py (cross-validated against Python datetime over 1900-2100 and, per template, against real DuckDB on concrete values), z3, sqlglot, AST shapes.",
+        text="Period year, number and dates are symbolic integers: for EVERY valid period / date of the year range (quick 1990-2030, thorough 1900-2100) and each indicator A S Q M W D, the SQL emitted for "
+             "timeshift (incl. week 53 / day 366 and non-collision of shifted datapoints), getyear/getmonth/dayofmonth/dayofyear, datediff, dateadd, time_agg, period_indicator, flow_to_stock, stock_to_flow "
+             "and period comparisons equals the calendar-correct result; runtime errors are required exactly where VTL defines them (ordering periods of different indicators, aggregating to a finer period)."),
     "C11": dict(
         technique="CrossHair symbolic execution of the real promotion functions and operator classes over symbolic type indices",
         text="Every obligation is a CrossHair condition over symbolic operand-type indices (all 9x9 pairs, all 9 unary types) calling the "
